@@ -602,6 +602,24 @@ def _chunks(kind: str, text: str) -> list[str] | None:
     return out if "".join(out) == text else None
 
 
+def _drop_pairs(chunks: list[str], test: Callable[[list[str]], bool]) -> list[str]:
+    """ddmin removes contiguous runs only; an opening and a closing tag around what matters
+    are not contiguous.  Try every pair when the list is short."""
+    changed = True
+    while changed and 2 < len(chunks) <= 14:
+        changed = False
+        for i in range(len(chunks)):
+            for j in range(i + 1, len(chunks)):
+                cand = chunks[:i] + chunks[i + 1:j] + chunks[j + 1:]
+                if cand and test(cand):
+                    chunks = cand
+                    changed = True
+                    break
+            if changed:
+                break
+    return chunks
+
+
 def _shrink_text(kind: str, text: str, test: Callable[[str], bool], budget: int) -> str:
     used = [0]
 
@@ -612,6 +630,7 @@ def _shrink_text(kind: str, text: str, test: Callable[[str], bool], budget: int)
     ch = _chunks(kind, text)
     if ch and len(ch) > 1:
         ch = ddmin(ch, lambda c: t("".join(c)), max_calls=budget // 3)
+        ch = _drop_pairs(ch, lambda c: t("".join(c)))
         text = "".join(ch)
     if len(text) <= 600:
         text = "".join(ddmin(list(text), lambda c: t("".join(c)), max_calls=max(40, budget - used[0])))
@@ -676,7 +695,8 @@ def minimise(case: Case, f: Failure, budget: int = 420) -> tuple[Case, Failure]:
     # whole chunks
     ch = _chunks(cur.kind, cur.text())
     if ch and len(ch) > 1:
-        ddmin(ch, lambda c: accept("".join(c)), max_calls=budget // 3)
+        ch = ddmin(ch, lambda c: accept("".join(c)), max_calls=budget // 3)
+        _drop_pairs(ch, lambda c: accept("".join(c)))
     # redundant parentheses
     changed = True
     while changed and calls[0] < budget:
@@ -720,8 +740,7 @@ def pickle_check(case: Case, root: Any = None) -> tuple[str, str, str]:
     got = _render_all(t2, case.datas)
     if got != base:
         j = next((i for i, (a, b) in enumerate(zip(base, got)) if a != b), 0)
-        cls = sorted({type(n).__name__ for n in root.nodes})
-        return ("fail", "pickle-behaviour@" + "+".join(cls)[:80],
+        return ("fail", "pickle-behaviour",
                 f"unpickled template renders differently on data set {j}: {base[j]!r} vs {got[j]!r}")
     return "ok", "", ""
 
@@ -789,6 +808,7 @@ class Monitor:
     def __init__(self, ctx: Ctx) -> None:
         self.ctx = ctx
         self.confirmed: set[str] = set()
+        self.pickle_keys: dict[str, str] = {}
         self.minimised = 0
 
     def _report(self, case: Case, f: Failure, calibration: bool = False) -> str:
@@ -891,12 +911,23 @@ class Monitor:
                 ctx.count("pickle_renders_compared")
             elif pst == "fail":
                 ctx.count("failures:pickle")
-                if pkey not in ctx.violations and self.minimised < MAX_MINIMISE_PER_SHARD:
+                if pkey not in self.pickle_keys and self.minimised < MAX_MINIMISE_PER_SHARD:
                     self.minimised += 1
                     small = self._min_pickle(case, pkey)
-                    ctx.violation(pkey, pwhat, small.witness("pickle"))
+                    final = pkey
+                    if pkey == "pickle-behaviour":
+                        # name the construct: the classes left in the minimised witness
+                        try:
+                            n, e, _ = walk(_env(small.kind, small.templates).from_string(small.source))
+                            final = "pickle-behaviour@" + "+".join(sorted(
+                                (n | e) - {"OutputNode", "ContentNode", "FilteredExpression", "BooleanExpression"}))[:90]
+                        except Exception:  # noqa: BLE001
+                            pass
+                    self.pickle_keys[pkey] = final
+                    ctx.violation(final, pwhat, small.witness("pickle"))
                 else:
-                    ctx.violation(pkey, pwhat, case.witness("pickle"))
+                    ctx.violation(self.pickle_keys.get(pkey, pkey), pwhat, case.witness("pickle"))
+                pkey = self.pickle_keys.get(pkey, pkey)
                 if result == "ok":
                     result = pkey
         return result
@@ -910,7 +941,7 @@ class Monitor:
             return pickle_check(c0.with_text(s))[1] == key
 
         try:
-            small = _shrink_text(case.kind, c0.source, test, 300)
+            small = _shrink_text(case.kind, c0.source, test, 1200)
             c1 = c0.with_text(small)
             if pickle_check(c1)[1] == key:
                 return c1
